@@ -54,6 +54,23 @@ fn compress(input: &[u8], fastest: bool, chunks: &[u32], drain: &SinkScript) -> 
     sink.map(|s| s.accepted).unwrap_or_default()
 }
 
+/// two frames from ONE reused compressor, the source of each wrapped in `Read::take` (std's `Take` in std builds, the
+/// crate's own in no_std builds) with a limit that cuts the input short of its end
+fn compress_reused_take(a: &[u8], b: &[u8], chunks: &[u32], lim_a: u64, lim_b: u64) -> (Vec<u8>, Vec<u8>) {
+    use ruzstd::io::Read as _;
+    let mut c = FrameCompressor::new(CompressionLevel::Fastest);
+    let mut outs = Vec::new();
+    for (inp, lim) in [(a, lim_a), (b, lim_b)] {
+        let rd = SimReader::new(inp, &SourceScript { chunks: chunks.to_vec(), eof_at: None, faults: vec![], pauses: vec![] });
+        c.set_source(rd.take(lim));
+        c.set_drain(Vec::new());
+        c.compress();
+        outs.push(c.take_drain().unwrap_or_default());
+    }
+    let second = outs.pop().unwrap();
+    (outs.pop().unwrap(), second)
+}
+
 /// decode `frame` with a seeded program; returns a digest of everything observable
 fn decode(frame: &[u8], r: &mut Rng, d: &mut Digest) {
     let chunks: Vec<u32> = match r.below(4) {
@@ -122,7 +139,18 @@ fn decode(frame: &[u8], r: &mut Rng, d: &mut Digest) {
                             break;
                         }
                     }
-                    match r.below(3) {
+                    match r.below(4) {
+                        3 => {
+                            // a plain byte slice as sink (std's `Write for &mut [u8]` vs the crate's own): it takes what fits
+                            let mut buf = vec![0u8; *r.pick(&[0usize, 1, 100, 5000, 100_000])];
+                            match dec.collect_to_writer(&mut buf[..]) {
+                                Ok(n) => {
+                                    d.u64(n as u64);
+                                    out.extend_from_slice(&buf[..n.min(buf.len())]);
+                                }
+                                Err(_) => d.str("slice-sink-error"),
+                            }
+                        }
                         0 => {
                             if let Some(v) = dec.collect() {
                                 out.extend_from_slice(&v);
@@ -219,6 +247,29 @@ fn main() {
             nd.bytes(&norm);
             line += &format!(" c{}={:016x} n{}={:016x} t{}={trailer}", fastest as u8, full.finish(), fastest as u8, nd.finish(), fastest as u8);
             produced.push(out);
+        }
+        // (1b) two frames from one reused compressor through `take`: inputs of similar distribution (table reuse across
+        // frames must not depend on the hash feature), limits cutting the inputs short
+        {
+            let second: Vec<u8> = {
+                let mut v = input.clone();
+                v.rotate_left(input.len() / 3);
+                v
+            };
+            let lim_a = if r.chance(1, 2) { input.len() as u64 } else { r.below(input.len() as u64 + 1) };
+            let lim_b = if r.chance(1, 2) { second.len() as u64 + 10 } else { r.below(second.len() as u64 + 1) };
+            let (f1, f2) = compress_reused_take(&input, &second, &chunks, lim_a, lim_b);
+            for (k, f) in [f1, f2].iter().enumerate() {
+                let mut norm = f.clone();
+                if hash && norm.len() >= 9 {
+                    let l = norm.len() - 4;
+                    norm.truncate(l);
+                    norm[4] &= !0x04;
+                }
+                let mut nd = Digest::new();
+                nd.bytes(&norm);
+                line += &format!(" r{k}={:016x}", nd.finish());
+            }
         }
         // (2) decode pool frames (corpus + what was just produced) with seeded programs under short reads and Interrupted
         let mut dd = Digest::new();
